@@ -84,6 +84,10 @@ struct Plan {
     /// caller is done, the same question is asked again on the same pool
     #[serde(default)]
     cancel_first_ms: u64,
+    /// this many extra lookups of distinct names start together with the callers: more than a
+    /// connection's request queue holds, so that servers push back with `Busy`
+    #[serde(default)]
+    burst: u8,
 }
 
 fn marker(server: usize, tcp: bool) -> Ipv4Addr {
@@ -170,13 +174,14 @@ impl Part for PoolPart {
             stagger_ms: *r.pick(&[0u64, 0, 1, 30]),
             warmup: r.chance(1, 4),
             cancel_first_ms: if r.chance(1, 5) { *r.pick(&[1u64, 10, 50, 200, 600]) } else { 0 },
+            burst: if r.chance(1, 25) { *r.pick(&[5u8, 12, 20, 41]) } else { 0 },
         })
         .unwrap()
     }
     fn run(&self, plan: &Value, trace: bool) -> Report {
         let mut p: Plan = serde_json::from_value(plan.clone()).expect("plan");
         p.sim.trace = trace;
-        let mut sig = mix(p.ordering as u64 ^ (p.num_concurrent_reqs as u64) << 4 ^ (p.callers.len() as u64) << 8 ^ (p.timeout_ms) << 16 ^ (p.warmup as u64) << 40 ^ (p.cancel_first_ms) << 44);
+        let mut sig = mix(p.ordering as u64 ^ (p.num_concurrent_reqs as u64) << 4 ^ (p.callers.len() as u64) << 8 ^ (p.timeout_ms) << 16 ^ (p.warmup as u64) << 40 ^ (p.cancel_first_ms) << 44 ^ (p.burst as u64) << 56);
         for s in &p.servers {
             let u = match s.udp {
                 Udp::Answer(_) => 1,
@@ -224,6 +229,14 @@ impl Part for PoolPart {
         if p.cancel_first_ms != 0 {
             let mut q = p.clone();
             q.cancel_first_ms = 0;
+            out.push(q);
+        }
+        if p.burst != 0 {
+            let mut q = p.clone();
+            q.burst = 0;
+            out.push(q);
+            let mut q = p.clone();
+            q.burst /= 2;
             out.push(q);
         }
         if p.stagger_ms != 0 {
@@ -405,6 +418,10 @@ async fn scenario(p: Plan) {
         _ => ServerOrderingStrategy::RoundRobin,
     };
     opts.case_randomization = false;
+    if p.burst != 0 {
+        // a small per-connection limit, so that TCP connections push back with `Busy`
+        opts.max_active_requests = 1 + (p.burst as usize % 7);
+    }
     let tls = match TlsConfig::new() {
         Ok(t) => t,
         Err(e) => {
@@ -475,6 +492,33 @@ async fn scenario(p: Plan) {
                 None => (Err("stream ended".into()), false),
             };
             outcomes.borrow_mut().insert(i, Outcome { start, end, result, nx });
+        }));
+    }
+    for b in 0..p.burst as usize {
+        let pool = pool.clone();
+        let outcomes = outcomes.clone();
+        let q = Query::new(Name::from_ascii(format!("burst{b}.example.")).unwrap(), RecordType::A);
+        joins.push(exec::spawn(&format!("burst{b}"), async move {
+            let start = exec::now_ns();
+            let r = pool.lookup(q, ropts).next().await;
+            let end = exec::now_ns();
+            let (result, nx) = match r {
+                Some(Ok(resp)) => {
+                    let m = resp.answers.iter().find_map(|r| match &r.data {
+                        RData::A(a) => Some(a.0),
+                        _ => None,
+                    });
+                    (Ok((m, resp.truncation)), false)
+                }
+                Some(Err(e)) => {
+                    if matches!(e, NetError::Busy) {
+                        exec::count("probe.busy_final");
+                    }
+                    (Err(e.to_string()), false)
+                }
+                None => (Err("stream ended".into()), false),
+            };
+            outcomes.borrow_mut().insert(2000 + b, Outcome { start, end, result, nx });
         }));
     }
     for j in joins {
@@ -648,7 +692,9 @@ async fn scenario(p: Plan) {
     if unambiguous_trunc {
         exec::count("probe.availability_judged_with_truncation");
     }
-    let unambiguous = unambiguous_plain || unambiguous_trunc;
+    // (under a burst the pool may legitimately give up on `Busy` after its back-off: only the
+    // deadline, termination and routing clauses are judged then)
+    let unambiguous = (unambiguous_plain || unambiguous_trunc) && p.burst == 0;
 
     for (i, o) in outcomes.iter() {
         let took = o.end - o.start;
